@@ -13,8 +13,9 @@ GEN_NEEDS = ["biotypes"]
 MODEL_OPS = {"gbw", "gbp", "gbrt", "gbm"}      # gbc: judged in Python against Bio.SeqIO, spec driver demands `ok clean`
 ERR_CLASS = False
 RULE = ("one case = one operation line.  gbw: one collection x flavour x force_strand x update_translations through the "
-        "real gene_to_feature (compared with Model.Gb.writeModel, judged by Spec.Gb.writeViolations incl. the "
-        "independent-reader translation); gbrt: one collection x flavour x parser mode through real "
+        "real collection_to_genbank / gene_to_feature up to the SeqFeatures handed to Bio.SeqIO.write (call intercepted; "
+        "compared with Model.Gb.writeModel, judged by Spec.Gb.writeViolations incl. the independent-reader "
+        "translation); gbrt: one collection x flavour x parser mode through real "
         "collection_to_genbank TEXT and real parse_genbank (compared with parseModel o writeModel, judged by "
         "Spec.Gb.rtViolations); gbc: one collection x flavour through text -> Bio.SeqIO (independent reader) -> "
         "clauses (a), parse_genbank x 3 modes -> clauses (b)(c); gbp / gbm: one feature list (documented layout + "
@@ -36,7 +37,12 @@ ASSUMPTIONS = ["single-strand gene models: all children of a gene / feature coll
                "round trip (gbrt, gbc-b): ONE transcript per gene (the parser documents that it keeps the first "
                "transcript feature of a multi-isoform gene); a coding transcript is not typed ncRNA/tRNA/rRNA/misc_RNA/"
                "tmRNA; identifiers over [A-Za-z0-9_.:-]; sorted mode is claimed on position-sorted files, locus-tag "
-               "and hybrid modes with unique effective locus tags (locus tag, else symbol, else gene id)",
+               "mode with unique effective locus tags (locus tag, else symbol, else gene id), hybrid mode with either "
+               "(duplicate tags are documented to go to the Sorted parser)",
+               "reader clauses (codon_start / translation) are claimed for CDSs read in ONE frame whose skipped bases lie "
+               "inside the 5'-most block (a GenBank location cannot express a programmed frameshift; C05's T4 has the same "
+               "guard), for sources that do not themselves carry /codon_start or /translation qualifiers, and for "
+               "collections that have a sequence",
                "the transcript SYMBOL is documented to be read from /gene (= the gene's symbol); the transcript's own "
                "symbol is required to survive as the /transcript_name qualifier; /product is not written",
                "independent translation: Biopython extract + translate of whole codons from /codon_start with NCBI "
